@@ -32,6 +32,13 @@ def _bg_text(org, o, k, param=False):
 from .gen import keywords as _keywords
 
 
+def twin_of(prog, steps, k):
+    """prog["dupsteps"] (never together with "typed"): own step k (0-based, every second one) of a plain scenario is written
+    with the very text of step k-1, when both texts are the plain `own <n>` form"""
+    plain = lambda o: o not in ("undefined", "badarg")
+    return bool(prog.get("dupsteps")) and not prog.get("typed") and k % 2 == 1 and plain(steps[k]["o"]) and plain(steps[k - 1]["o"])
+
+
 class Rendered(object):
     def __init__(self, prog, flat):
         self.prog = prog
@@ -95,7 +102,14 @@ class Rendered(object):
                     # prog["dupnames"]: all scenarios share one name (selection must go by location, never by name)
                     reg(e, emit(ind + ("Scenario: S" if self.prog.get("dupnames") else "Scenario: S%d" % e["id"])))
                     for k, s in enumerate(it["steps"]):
-                        emit(ind + "  " + kw(2, len(it["steps"]), k) + _own_text(s["o"], k + 1))
+                        if twin_of(self.prog, it["steps"], k):
+                            # prog["dupsteps"]: the step repeats the text (and keyword) of the step before it -- two steps
+                            # that compare equal; its number travels in a one-cell table
+                            emit(ind + "  " + kw(2, len(it["steps"]), k - 1) + _own_text(it["steps"][k - 1]["o"], k))
+                            emit(ind + "    | k |")
+                            emit(ind + "    | %d |" % (k + 1))
+                        else:
+                            emit(ind + "  " + kw(2, len(it["steps"]), k) + _own_text(s["o"], k + 1))
                 else:
                     self._item += 1
                     emit("")
